@@ -1518,6 +1518,7 @@ func (c *RemoteClient) runConnection(ctx context.Context, conn net.Conn,
 	case handshakeCompleteChannel <- nil: // ensure sendMessages is not waiting on the handshake
 	default:
 	}
+	verifPoint("conn.teardown")
 	conn.Close()
 
 	wait.Wait()
